@@ -196,7 +196,10 @@ theorem strict_keeps_destination (o : Nat) (s : Instr) (h : strictImm o) :
                 split
                 · exact ⟨rfl, rfl, rfl, rfl, rfl, rfl⟩
                 · rw [effNasm_strict o _ h]
-                  refine (dtOpOffset_same _ _).trans (AddrSame.trans ?_ ⟨rfl, rfl, rfl, rfl, rfl, rfl⟩)
+                  generalize hx0 : ({ x with rdOffset := x.opd0.reg &&& c_VALUE_MASK } : Instr) = x0
+                  have hxs : AddrSame x0 x := by rw [← hx0]; exact ⟨rfl, rfl, rfl, rfl, rfl, rfl⟩
+                  refine (dtOpOffset_same _ _).trans (AddrSame.trans ?_ ((dtNeg32_facts x0).2.2.2.2.1.trans hxs))
+                  generalize dtNeg32 x0 = y
                   unfold dtSelect
                   simp only [Bool.false_and, Bool.false_eq_true, if_false]
                   repeat' split
@@ -240,7 +243,8 @@ theorem smart_follows_spelling (o o' : Nat) (s : Instr) (h : smartImm o)
             · split
               · unfold encodeImmDataTransfer
                 dsimp only
-                have hyn : ({ x with rdOffset := x.opd0.reg &&& c_VALUE_MASK } : Instr).narrowOk = s.narrowOk := hacc
+                have hyn : (dtNeg32 ({ x with rdOffset := x.opd0.reg &&& c_VALUE_MASK } : Instr)).narrowOk = s.narrowOk :=
+                  (dtNeg32_facts _).2.2.2.1.trans hacc
                 split
                 · rfl
                 · rw [heff _ hyn]
